@@ -616,3 +616,6 @@ for _k in ('C11', 'C08'):
 CHECKS['C12']['text'] += (" broken_string_token_handler (the registered error-token handler): for ANY error token and input text it returns or raises the library's syntax error -- no IndexError / KeyError / "
                           "AttributeError whatever follows the matched part (z3 string theory over the symbolic input; the two patterns are doubles, the escape-scan one backed by the exhaustive constant obligation "
                           "lex.escape_scan_matches_every_x_u_prefix over all code points).")
+for _k in ('C14', 'C20'):
+    CHECKS[_k]['text'] += (" factory.py (contracts/factory.py): the wrapper behind es5.pretty_print / minify_print(source, ...) calls the parser once with (source, with_comments=<the keyword, False when absent>) and the "
+                           "printer once with (that tree, every other positional and keyword argument unchanged and in order), returning its result; the parse wrapper forwards everything (12 argument shapes each).")
